@@ -15,7 +15,10 @@ pub(crate) use super::prelude::*;
 
 mod prelude {
     pub(crate) use super::*;
+    #[cfg(not(pearl_verif))]
     pub(crate) use async_lock::RwLock as ASRwLock;
+    #[cfg(pearl_verif)]
+    pub(crate) use crate::verif::AsRwLock as ASRwLock;
     pub(crate) use index::Index;
     pub(crate) use std::sync::RwLock as SRwLock;
 }
